@@ -1,10 +1,10 @@
 #!/bin/bash
 # builds the C19 driver and the two command-line tools from /repo's current working tree
 set -e
-export GOFLAGS=-mod=mod GOPROXY=off GOSUMDB=off GOTOOLCHAIN=local
+. "$(dirname "$(realpath "$0")")/../../goenv.sh"
 HERE=$(dirname "$(realpath "$0")")
 ROOT=$(realpath "$HERE/../../..")
 mkdir -p "$ROOT/.bin"
-(cd /repo/cmd/cdi && go build -o "$ROOT/.bin/cdi-cli" .)
-(cd /repo/cmd/validate && go build -o "$ROOT/.bin/validate-cli" .)
+(cd "$VERIF_REPO/cmd/cdi" && GOFLAGS=-mod=mod go build -o "$ROOT/.bin/cdi-cli" .)
+(cd "$VERIF_REPO/cmd/validate" && GOFLAGS=-mod=mod go build -o "$ROOT/.bin/validate-cli" .)
 (cd "$ROOT/mc" && go build -o "$ROOT/.bin/c19" ./checks/c19)
